@@ -14,6 +14,7 @@ import (
 
 type genState struct {
 	r       *rand.Rand
+	pcg     *rand.PCG
 	profile string
 	schema  schemaSpec
 	pool    []uuid.UUID
@@ -33,8 +34,9 @@ var tagPool = []string{"red", "Red", "RED", "green", "blue", "Blue", "x", "X", "
 var vocab = []string{"the", "a", "of", "and", "wizard", "Wizard", "gandalf", "Gandalf", "frodo", "ring", "rings", "mountain", "fire", "shadow", "king", "return", "hobbit", "elf", "dwarf", "sword", "quest", "dark", "tower", "two", "fellowship", "journey", "dragon", "gold", "river", "forest", "is", "to", "in", "it", "über", "café", "naïve", "日本", "x1", "42", "!!!", "...", "-", "don't", "e-mail"}
 
 func newGen(profile string, seed uint64, idx int) *genState {
-	r := rand.New(rand.NewPCG(seed, uint64(idx)*0x9E3779B97F4A7C15+77))
-	g := &genState{r: r, profile: profile, sent: map[uuid.UUID]Val{}, maxSize: 1 << 20}
+	pcg := rand.NewPCG(seed, uint64(idx)*0x9E3779B97F4A7C15+77)
+	r := rand.New(pcg)
+	g := &genState{r: r, pcg: pcg, profile: profile, sent: map[uuid.UUID]Val{}, maxSize: 1 << 20}
 	npool := 10 + r.IntN(6)
 	for i := 0; i < npool; i++ {
 		var u uuid.UUID
